@@ -22,7 +22,7 @@ PROPS["C14"] = {
                     "verifref h2c transcription is faithful (checked against the RFC 9380 vectors shipped in /repo/primitives/h2c/testdata)"],
     "units": [
         {
-            "pkg": "primitives/h2c", "configs": ALL4,
+            "pkg": "primitives/h2c", "configs": ALL4Q,
             "tests": {
                 "TestC14ExpandXMD": T(12000, 400000),
                 "FuzzC14ExpandXMD": FUZZ(60, configs=["default"]),
@@ -34,7 +34,7 @@ PROPS["C14"] = {
             },
         },
         {
-            "pkg": "internal/elligator", "configs": ALL4,
+            "pkg": "internal/elligator", "configs": ALL4Q,
             "tests": {
                 "TestC14Map": T(6000, 200000, shards={"quick": 4, "thorough": 16}),
                 "TestC14SetEdwardsFromXY": T(3000, 60000),
